@@ -117,7 +117,9 @@ class Prog:
             elif e.op == "-": r = a - b
             elif e.op == "*": r = a * b
             else:
-                if b == 0: raise ZeroDivisionError
+                if b == 0:
+                    if e.ty == "float": raise FloatingPointError      # float x / 0: the VM raises, wasm yields inf/nan — outside the compared domain
+                    raise ZeroDivisionError
                 if e.ty == "float": r = a / b
                 else:
                     q = abs(a) // abs(b); r = q if (a < 0) == (b < 0) else -q
@@ -133,6 +135,8 @@ class Prog:
             return ev(self.result), exact[0]
         except ZeroDivisionError:
             return "div0", exact[0]      # exact: everything evaluated BEFORE the division was exact
+        except FloatingPointError:
+            return "div0", False
 
 
 def gen_prog(rng, opts=None):
